@@ -7,8 +7,9 @@
      (pathManager.findPathConf = IsValidPathName, then conf.FindPathConf);
    - the authentication manager is an oracle `auth publish name creds ip` (= authManager.Authenticate(req) returned no
      error, where req = ToAuthRequest(): Action is publish iff the request's Publish flag is set, Path = Name,
-     Credentials and IP are the request's own); it does not depend on pm.pathConfs (the manager is a separate component
-     that is not replaced while the path manager lives);
+     Credentials and IP are the request's own); it does not depend on pm.pathConfs. The manager object lives as long as
+     the path manager, but its internal users can be hot-reloaded (ReloadInternalUsers): `auth` is the manager's
+     decision at the moment of the authenticating call (each call, and each flow, authenticates at most once);
    - what the path itself does with an admitted request (path.addReader / addPublisher / describe) can only refuse
      further; `Attached k n` = the path manager handed the request to the path object of name n. *)
 From Coq Require Import List ZArith Bool String.
